@@ -127,6 +127,116 @@ def skip_list(impl_body):
     return set(re.findall(r"SteelVal::([A-Z][A-Za-z0-9]*)", m.group(1)))
 
 
+
+# ---- marker work queue (MarkAndSweepContextRefQueue::push_back / pop_front, ParallelMarker)
+def _match_brace(t, i):
+    depth = 0
+    j = i
+    while j < len(t):
+        if t[j] == "{":
+            depth += 1
+        elif t[j] == "}":
+            depth -= 1
+            if depth == 0:
+                return j
+        j += 1
+    raise TieBroken("unbalanced braces in the marker's push_back")
+
+
+def branch_leaves(block):
+    """Leaves of the if / else-if / else tree formed by `block` (text between braces): list of
+    (conditions on the path, statements executed unconditionally in that leaf)."""
+    t = block.strip()
+    # unconditional simple statements before the conditional stay with every leaf
+    pre = ""
+    while True:
+        m = re.match(r"([^{};]*;)\s*", t)
+        if not m or t.startswith("if "):
+            break
+        pre += m.group(1)
+        t = t[m.end():]
+    if not t.startswith("if "):
+        return [([], pre + t)]
+    leaves = []
+    conds = []
+    while True:
+        i = t.index("{")
+        cond = t[2:i].strip()
+        j = _match_brace(t, i)
+        for c2, body in branch_leaves(t[i + 1:j]):
+            leaves.append((conds + [cond] + c2, pre + body))
+        conds = conds + ["!(" + cond + ")"]
+        rest = t[j + 1:].strip()
+        if rest.startswith("else if "):
+            t = rest[5:]
+            continue
+        if rest.startswith("else"):
+            k = rest.index("{")
+            j2 = _match_brace(rest, k)
+            for c2, body in branch_leaves(rest[k + 1:j2]):
+                leaves.append((conds + c2, pre + body))
+            tail = rest[j2 + 1:].strip()
+        else:
+            leaves.append((conds, pre))      # if without else: a path that executes nothing more
+            tail = rest
+        if tail:
+            # statements after the conditional belong to every leaf
+            leaves = [(c, b + " " + tail) for c, b in leaves]
+        return leaves
+
+
+FULL_TEST = re.compile(r"self\.local_queue\.len\(\)\s*(==|>=)\s*self\.local_queue\.capacity\(\)")
+ENQ = re.compile(r"self\s*\.\s*(queue|local_queue)\s*\.\s*push\(\s*p\s*\)")
+
+
+def marker_queue_facts(closed, cycles):
+    """Facts about the work queue of the parallel marker: every path of push_back enqueues the pushed value,
+    the drain loop empties both queues, all roots are enqueued, capacity of the local queue."""
+    par_impl = block_after(closed, r"impl<'a> BreadthFirstSearchSteelValReferenceVisitor2<'a> for MarkAndSweepContextRefQueue<'a>", "parallel marker impl")
+    pb, _ = fn_body(par_impl, r"fn push_back\(&mut self", what="parallel marker push_back")
+    m = re.search(r"_\s*=>\s*\{", pb)
+    if not m:
+        raise TieBroken("parallel marker push_back: arm for the queued kinds not found")
+    j = _match_brace(pb, m.end() - 1)
+    arm = pb[m.end():j].strip()
+    m2 = re.match(r"if let Some\(p\) = SteelValPointer::from_value\(value\)\s*\{", arm)
+    if not m2:
+        raise TieBroken("parallel marker push_back: `if let Some(p) = SteelValPointer::from_value(value)` not found")
+    j2 = _match_brace(arm, m2.end() - 1)
+    if arm[j2 + 1:].strip():
+        raise TieBroken("parallel marker push_back: unexpected code after the enqueue block")
+    leaves = branch_leaves(arm[m2.end():j2])
+    spill, local = [], []
+    for conds, body in leaves:
+        tests = [c for c in conds if FULL_TEST.search(c)]
+        if len(tests) != 1:
+            raise TieBroken("parallel marker push_back: cannot tell the local-queue-full path from the other (conditions %s)" % conds)
+        full = not tests[0].startswith("!(")
+        flat = re.sub(r"\{[^{}]*\}", "", body)       # only unconditional statements of the leaf count
+        (spill if full else local).append(bool(ENQ.search(flat)))
+    if not spill or not local:
+        raise TieBroken("parallel marker push_back: full / not-full paths not found")
+    facts = {"pq_spill_enqueues": all(spill), "pq_local_enqueues": all(local)}
+    pf, _ = fn_body(par_impl, r"fn pop_front\(&mut self\)", what="parallel marker pop_front")
+    pf = re.sub(r"\s+", "", pf)
+    both = pf in ("self.local_queue.pop().or_else(||self.queue.pop())", "self.queue.pop().or_else(||self.local_queue.pop())")
+    par_trait = block_after(cycles, r"pub\(crate\) trait BreadthFirstSearchSteelValReferenceVisitor2<'a>", "reference visitor trait")
+    vb, _ = fn_body(par_trait, r"fn visit\(&mut self\)", what="reference visitor visit")
+    loop = bool(re.search(r"while let Some\(value\) = self\.pop_front\(\)\s*\{", vb)) and not re.search(r"\bbreak\b|\breturn\b", vb)
+    overridden = bool(re.search(r"fn visit\(&mut self\)", par_impl))
+    facts["pq_drain_both"] = both and loop and not overridden
+    pm = block_after(closed, r"impl ParallelMarker\s*\{", "impl ParallelMarker")
+    mk, _ = fn_body(pm, r"pub fn mark\(&self, queue: &\[SteelVal\]\)", what="ParallelMarker::mark")
+    facts["pq_roots_enqueued"] = bool(re.search(
+        r"for value in queue\.iter\(\)\s*\{\s*if let Some\(p\) = SteelValPointer::from_value\(value\)\s*\{\s*self\.queue\.push\(p\);\s*\}\s*\}", mk))
+    nw, _ = fn_body(pm, r"pub fn new\(\) -> Self", what="ParallelMarker::new")
+    mc = re.search(r"let mut local_queue = Vec::with_capacity\((\d+)\);", nw)
+    if not mc:
+        raise TieBroken("ParallelMarker::new: capacity of the local queue not found")
+    facts["pq_local_capacity"] = int(mc.group(1))
+    return facts
+
+
 def translate_heap():
     """closed.rs / rvals.rs / cycles.rs / vm.rs  ->  text of coq/gen/Gen_C04.v and a dict of the facts."""
     # comments are removed first: they contain commented-out code with unbalanced braces
@@ -202,6 +312,7 @@ def translate_heap():
     facts["can_contain"] = [k for k in names if can[k]]
     facts["marker_par"] = [k for k in names if par[k]]
     facts["marker_seq"] = [k for k in names if seq[k]]
+    facts.update(marker_queue_facts(closed, cycles))
     # ---- root sets pushed by Heap::mark
     heap_impl = block_after(closed, r"\nimpl Heap\s*\{", "impl Heap")
     markb, _ = fn_body(heap_impl, r"fn mark<'a>\(", what="Heap::mark")
@@ -280,6 +391,13 @@ def render_gen(f):
     out.append("Definition marked_root_sets : list rset := [" + "; ".join(f["marked_root_sets"]) + "].")
     out.append("(* Heap::mark empties the root queue after marking (sync build) *)")
     out.append("Definition mark_queue_cleared : bool := %s." % coq_bool(f["mark_queue_cleared"]))
+    out.append("(* work queue of the parallel marker (MarkAndSweepContextRefQueue::push_back / pop_front, ParallelMarker::mark / new):")
+    out.append("   capacity of a worker's local queue; the local-queue-full path of push_back enqueues the pushed value (on the shared")
+    out.append("   queue); the other path enqueues it (on the local queue); the drain loop pops both queues until both are empty;")
+    out.append("   every root is put on the shared queue *)")
+    out.append("Definition pq_local_capacity : nat := %d." % f["pq_local_capacity"])
+    for n in ("pq_spill_enqueues", "pq_local_enqueues", "pq_drain_both", "pq_roots_enqueued"):
+        out.append("Definition %s : bool := %s." % (n, coq_bool(f[n])))
     out.append("(* GlobalSlotRecycler::recycle puts the heap mark bits back (take_marks / restore_marks) *)")
     out.append("Definition recycler_restores_marks : bool := %s." % coq_bool(f["recycler_restores_marks"]))
     return "\n".join(out) + "\n"
@@ -698,3 +816,124 @@ def parse_stats(s):
     """'((I.. ..) (..) (..))' canonical rendering of #%verif-heap-stats -> three int lists"""
     groups = re.findall(r"\(((?:I-?\d+\s*)+)\)", s)
     return [[int(x[1:]) for x in g.split()] for g in groups]
+
+
+# ------------------------------------------------------------------------------------------------
+# wide containers: more pending children than a marker's local queue holds (pq_local_capacity = 4096)
+WIDE_PRELUDE = r"""
+(define (w-elem kind i)
+  (cond [(= kind 0) (box i)]
+        [(= kind 1) (vector i 0)]
+        [else (let ((n i)) (lambda () (begin (set! n (+ n 0)) n)))]))
+(define (w-val kind e) (cond [(= kind 0) (unbox e)] [(= kind 1) (vector-ref e 0)] [else (e)]))
+(define (w-ok kind e i) (equal? (w-val kind e) i))
+(define (w-list-from kind base n acc) (if (= n 0) acc (w-list-from kind base (- n 1) (cons (w-elem kind (+ base (- n 1))) acc))))
+(define (w-list kind n) (w-list-from kind 0 n '()))
+(define (w-bad-list kind l i bad) (if (null? l) bad (w-bad-list kind (cdr l) (+ i 1) (if (w-ok kind (car l) i) bad (+ bad 1)))))
+(define (w-fill v kind i n) (if (= i n) v (begin (vector-set! v i (w-elem kind i)) (w-fill v kind (+ i 1) n))))
+(define (w-bad-vec kind v i n bad) (if (= i n) bad (w-bad-vec kind v (+ i 1) n (if (w-ok kind (vector-ref v i) i) bad (+ bad 1)))))
+(define (w-hash kind i n h) (if (= i n) h (w-hash kind (+ i 1) n (hash-insert h i (w-elem kind i)))))
+(define (w-bad-hash kind h i n bad) (if (= i n) bad (w-bad-hash kind h (+ i 1) n (if (w-ok kind (hash-ref h i) i) bad (+ bad 1)))))
+(define (w-rows kind rows cols r acc) (if (= r 0) acc (w-rows kind rows cols (- r 1) (cons (w-list-from kind (* (- r 1) cols) cols '()) acc))))
+(define (w-bad-rows kind rows cols r bad) (if (null? rows) bad (w-bad-rows kind (cdr rows) cols (+ r 1) (w-bad-list kind (car rows) (* r cols) bad))))
+(define (w-churn n) (if (= n 0) 0 (begin (box n) (if (= (modulo n 4) 0) (vector n n) 0) (w-churn (- n 1)))))
+(define (w-total) (let ((s (#%verif-heap-stats))) (+ (car (car s)) (car (car (cdr s))))))
+(define (w-sample) (let ((s (#%verif-heap-stats))) (list (list-ref s 0) (list-ref s 1))))
+(define w-root 0)
+(set! w-root 0)
+(define w-kreg 0)
+(set! w-kreg 0)
+(define (w-capture kind v) (let ((x v)) (let ((m (call/cc (lambda (k) (set! w-kreg k) 'first)))) (if (eq? m 'first) 'first (w-bad-list kind x 0 0)))))
+"""
+
+WIDE_FAMILIES = ["mvec", "ivec", "list", "hash", "closure", "matrix", "wide-in-wide", "thread", "kont"]
+WIDE_KINDS = {0: "box", 1: "mutable-vector", 2: "counter-closure"}
+
+
+def wide_case(family, kind, n):
+    """units of one wide scenario; the units named in `checks` have to evaluate to 0 (number of elements that
+    do not hold their own index)"""
+    churn = "(w-churn (* 2 (w-total)))"
+    if family in ("thread", "kont"):
+        if family == "thread":
+            body = ("(let ((l (w-list %d %d))) (begin (thread-join! (spawn-native-thread (lambda () (begin (#%%gc-collect) %s 0)))) "
+                    "(#%%gc-collect) (w-bad-list %d l 0 0)))" % (kind, n, churn, kind))
+        else:
+            body = ("(let ((msg (w-capture %d (w-list %d %d)))) (if (eq? msg 'first) (begin (#%%gc-collect) %s (#%%gc-collect) (w-kreg 'again)) "
+                    "(begin (set! w-kreg 0) msg)))" % (kind, kind, n, churn))
+        return ["(begin (#%gc-collect) (w-sample))", body, "(c04-counters)"], [1]
+    if family == "mvec":
+        build, check = "(w-fill (make-vector %d 0) %d 0 %d)" % (n, kind, n), "(w-bad-vec %d w-root 0 %d 0)" % (kind, n)
+    elif family == "ivec":
+        build, check = "(list->vector (w-list %d %d))" % (kind, n), "(w-bad-list %d (immutable-vector->list w-root) 0 0)" % kind
+    elif family == "list":
+        build, check = "(w-list %d %d)" % (kind, n), "(w-bad-list %d w-root 0 0)" % kind
+    elif family == "hash":
+        build, check = "(w-hash %d 0 %d (hash))" % (kind, n), "(w-bad-hash %d w-root 0 %d 0)" % (kind, n)
+    elif family == "closure":
+        build, check = "(let ((l (w-list %d %d))) (lambda () l))" % (kind, n), "(w-bad-list %d (w-root) 0 0)" % kind
+    elif family == "matrix":
+        build, check = "(w-rows %d 70 70 70 '())" % kind, "(w-bad-rows %d w-root 70 0 0)" % kind
+    elif family == "wide-in-wide":
+        rows = max(4200, n // 2)
+        build, check = "(w-rows %d %d 2 %d '())" % (kind, rows, rows), "(w-bad-rows %d w-root 2 0 0)" % kind
+    else:
+        raise ValueError(family)
+    units = ["(begin (#%gc-collect) (w-sample))",
+             "(let ((ignore (set! w-root %s))) 0)" % build,
+             "(begin (#%gc-collect) " + check + ")",
+             "(let ((ignore " + churn + ")) " + check + ")",
+             "(begin (#%gc-collect) (let ((ignore (w-churn 3000))) " + check + "))",
+             "(c04-counters)"]
+    return units, [2, 3, 4]
+
+
+def run_wide(ck, picks, stats, tag="wide"):
+    """picks: list of (family, kind, n, env dict).  Oracle: every element holds its own index; no access through a
+    handle whose slot is flagged free / dropped."""
+    by_env = {}
+    for p in picks:
+        by_env.setdefault(json.dumps(p[3], sort_keys=True), []).append(p)
+    for ekey, ps in by_env.items():
+        env = json.loads(ekey)
+        cases = [wide_case(f, k, n) for f, k, n, _ in ps]
+        res = ck.eval_cases([u for u, _ in cases], prelude=PRELUDE + WIDE_PRELUDE, env=env, fresh=True, batch=1, timeout_per_batch=400)
+        for (f, k, n, _), (units, checks), r in zip(ps, cases, res):
+            ck.cov["evaluations"] += 1
+            stats.setdefault("wide", {})
+            stats["wide"]["%s/%s" % (f, WIDE_KINDS[k])] = stats["wide"].get("%s/%s" % (f, WIDE_KINDS[k]), 0) + 1
+            case = {"kind": "wide", "family": f, "element": WIDE_KINDS[k], "elem_kind": k, "n": n, "env": env, "units": units}
+            outs = []
+            for i, o in enumerate(r):
+                outs.append(o["ok"][-1] if "ok" in o and o["ok"] else json.dumps(o)[:200])
+            bad = None
+            if len(r) != len(units):
+                bad = "engine stopped after %d of %d units: %s" % (len(r), len(units), outs[-1:] if outs else r)
+            else:
+                for i in checks:
+                    if outs[i] != "I0":
+                        bad = "unit %d reports %s elements that do not hold their own index" % (i, outs[i])
+                        break
+                if bad is None:
+                    c = [int(x[1:]) for x in outs[-1].strip("()").split()] if outs[-1].startswith("(I") else None
+                    if c is None:
+                        bad = "no counters: %s" % outs[-1]
+                    elif c[3] or c[4]:
+                        bad = "%d access(es) through a handle whose slot is flagged free, %d through a dropped slot" % (c[3], c[4])
+            if bad:
+                ck.failing_input("wide container (%s of %d %ss, env %s): %s" % (f, n, WIDE_KINDS[k], env, bad), dict(case, outcome=outs), tag=tag)
+            elif len(ck.cov["samples"]) < 6:
+                ck.sample({"wide": f, "element": WIDE_KINDS[k], "n": n, "env": env, "outcome": outs})
+
+
+def wide_picks(rng, tier, force_all=False):
+    envs = [{}, {"STEEL_JIT": "false"}, {"STEEL_VERIF_GC_CHUNK": "2048"}, {"STEEL_VERIF_GC_EVERY": "2999"},
+            {"STEEL_VERIF_GC_CHUNK": "1024", "STEEL_VERIF_GC_EVERY": "4999", "STEEL_JIT": "false"}]
+    if tier == "quick" and not force_all:
+        fams = rng.sample(WIDE_FAMILIES, 2)
+        return [(f, rng.choice([0, 0, 1, 2]), rng.randint(5000, 12000), rng.choice(envs)) for f in fams]
+    out = []
+    for f in WIDE_FAMILIES:
+        for k in (WIDE_KINDS if not force_all else [0]):
+            out.append((f, k, rng.randint(5000, 12000), rng.choice(envs)))
+    return out
